@@ -846,9 +846,28 @@ fn build(kind: Kind, fam: Fam, cfg: &zsim_core::Chan, cx: &mut Run, init: &[Vec<
         SimpleDawg => plain(Box::new(SDawg(zipora::fsa::SimpleDawg::new()))),
         ParallelSequential => {
             let rt = tokio::runtime::Builder::new_current_thread().build().expect("runtime");
-            let how = if ext { cfg.below(3) } else { 0 };
+            let how = if ext { cfg.below(4) } else { 0 };
             match how {
                 0 => plain(Box::new(Par { rt, t: ParallelLoudsTrie::new() })),
+                3 => {
+                    // built by ParallelTrieBuilder in chunks of 1-3 keys (partial tries on the blocking
+                    // pool, awaited one after the other, then merged)
+                    let chunk = 1 + cfg.below(3) as usize;
+                    let mut members: Vec<Vec<u8>> = vec![];
+                    for k in init {
+                        if !members.contains(k) {
+                            members.push(k.clone());
+                        }
+                    }
+                    cx.ev(format!("ParallelTrieBuilder::new().chunk_size({}).build_louds_trie({})", chunk, show_set(init)));
+                    match rt.block_on(zipora::concurrency::parallel_trie::ParallelTrieBuilder::new().chunk_size(chunk).build_louds_trie(init.to_vec())) {
+                        Ok(t) => Some(Built { t: Box::new(Par { rt, t }), preloaded: members }),
+                        Err(e) => {
+                            cx.ev(format!("  -> refused: {}", e));
+                            None
+                        }
+                    }
+                }
                 1 => plain(Box::new(Par { rt, t: Default::default() })),
                 _ => {
                     // from_trie: a Patricia ZiporaTrie (what ParallelLoudsTrie::new() uses) that already has a history
@@ -1374,7 +1393,7 @@ impl Scenario for Sc {
         // what a builder / from_trie start is given: 0-4 palette keys, duplicates allowed
         let mut init: Vec<Vec<u8>> = vec![];
         if ext {
-            for _ in 0..cfg.below(5) {
+            for _ in 0..cfg.below(if self.kind == Kind::ParallelSequential { 8 } else { 5 }) {
                 init.push(palette[cfg.below(np) as usize].clone());
             }
         }
